@@ -10,6 +10,8 @@ mod c12;
 mod c13;
 mod c14;
 mod c15;
+mod c16;
+mod provider;
 mod c17;
 mod c18;
 mod sched;
@@ -78,6 +80,7 @@ fn main() {
         "c13" => c13::run(&opts),
         "c14" => c14::run(&opts),
         "c15" => c15::run(&opts),
+        "c16" => c16::run(&opts),
         "c17" => c17::run(&opts),
         "c18" => c18::run(&opts),
         "c20" => c20::run(&opts),
